@@ -61,7 +61,12 @@ pub(super) fn load_workbook<R: Read + std::io::Seek>(
         let sheet_id = match node.attribute("localSheetId") {
             Some(s) => {
                 let index = s.parse::<usize>()?;
-                Some(sheets[index].sheet_id)
+                let sheet = sheets.get(index).ok_or_else(|| {
+                    XlsxError::Xml(format!(
+                        "Defined name '{name}' is local to a sheet that does not exist"
+                    ))
+                })?;
+                Some(sheet.sheet_id)
             }
             None => None,
         };
